@@ -62,6 +62,9 @@ type Fix struct {
 	Ctx   context.Context
 	stop  context.CancelFunc
 	rounds []*miner.Round
+	// MBs are all installed magic blocks (MBs[0] == MB); LFMBs[i] is the finalized block that carries MBs[i].
+	MBs   []*block.MagicBlock
+	LFMBs []*block.Block
 }
 
 type Opts struct {
@@ -77,6 +80,9 @@ type Opts struct {
 	ValidationBatchSize int
 	// SelfKey is this node's own signing key (with the private part); default Keys[Self].
 	SelfKey *encryption.BLS0ChainScheme
+	// Pools, when set, installs one magic block per entry (miner sets given as indices into Keys): the first starts
+	// at round 0, the following ones at round 100, 200, … (a view change). Each magic block has its own node objects.
+	Pools [][]int
 }
 
 // New builds a fresh chain + miner chain. Everything a previous fixture registered globally is replaced.
@@ -110,8 +116,18 @@ func New(o Opts) *Fix {
 		}
 		f.Keys = append(f.Keys, k)
 		f.Nodes = append(f.Nodes, nd)
-		np.AddNode(nd)
-		node.RegisterNode(nd)
+		in0 := o.Pools == nil
+		if o.Pools != nil {
+			for _, j := range o.Pools[0] {
+				if j == i {
+					in0 = true
+				}
+			}
+		}
+		if in0 {
+			np.AddNode(nd)
+		}
+		node.RegisterNode(nd) // every node the process knows is in the global registry
 	}
 	node.Self = &node.SelfNode{}
 	node.Self.Node = f.Nodes[o.Self]
@@ -125,7 +141,11 @@ func New(o Opts) *Fix {
 	mb.Miners = np
 	mb.Sharders = node.NewPool(node.NodeTypeSharder)
 	mb.T, mb.N = o.T, o.N
+	if o.Pools != nil {
+		mb.T, mb.N = len(o.Pools[0]), len(o.Pools[0])
+	}
 	mb.StartingRound = 0
+	mb.MagicBlockNumber = 1
 	f.MB = mb
 
 	c := chain.Provider().(*chain.Chain)
@@ -169,6 +189,41 @@ func New(o Opts) *Fix {
 	gb = mc.AddRoundBlock(r0, gb)
 	mc.Chain.SetLatestFinalizedBlock(gb)
 	f.GB = gb
+	f.MBs = []*block.MagicBlock{mb}
+	f.LFMBs = []*block.Block{gb}
+	// further magic blocks (view changes) with their own miner sets
+	for i := 1; i < len(o.Pools); i++ {
+		pool := node.NewPool(node.NodeTypeMiner)
+		for _, j := range o.Pools[i] {
+			nd := node.Provider()
+			nd.Type = node.NodeTypeMiner
+			nd.Host, nd.N2NHost, nd.Port = "127.0.0.1", "127.0.0.1", 1+j
+			nd.Status = node.NodeStatusActive
+			if err := nd.SetSignatureScheme(f.Keys[j]); err != nil {
+				panic(err)
+			}
+			pool.AddNode(nd)
+		}
+		prev := f.MBs[i-1]
+		m := block.NewMagicBlock()
+		m.Miners = pool
+		m.Sharders = node.NewPool(node.NodeTypeSharder)
+		m.T, m.N = len(o.Pools[i]), len(o.Pools[i])
+		m.StartingRound = int64(100 * i)
+		m.MagicBlockNumber = prev.MagicBlockNumber + 1
+		m.PreviousMagicBlockHash = prev.Hash
+		m.Hash = m.GetHash()
+		c.SetMagicBlock(m)
+		lb := block.NewBlock(config.GetServerChainID(), m.StartingRound)
+		lb.SetRoundRandomSeed(seed + int64(i))
+		lb.MagicBlock = m
+		lb.HashBlock()
+		lb.SetBlockState(block.StateNotarized)
+		lb.SetStateStatus(block.StateSuccessful)
+		mc.SetLatestFinalizedMagicBlock(lb)
+		f.MBs = append(f.MBs, m)
+		f.LFMBs = append(f.LFMBs, lb)
+	}
 	return f
 }
 
